@@ -66,12 +66,20 @@ def effectJudge (cfg : Config) (rt : Route) (rq : Req) (eff : Nat) : Option Stri
 
 /-! ### IAM policy documents -/
 
+/-- `f` holds of some suffix of the string -/
+def someSuffix (f : Str → Bool) : Str → Bool
+  | [] => f []
+  | d :: s => f (d :: s) || someSuffix f s
+
+/-- first character equal, `f` of the rest -/
+def headMatch (c : Char) (f : Str → Bool) : Str → Bool
+  | [] => false
+  | d :: s' => c == d && f s'
+
 /-- `*` matches any run of characters (the only wildcard of S3 resource ARNs used here) -/
 def globMatch : Str → Str → Bool
-  | [], s => s.isEmpty
-  | '*' :: p, s => globMatch p s || (match s with | [] => false | _ :: s' => globMatch ('*' :: p) s')
-  | c :: p, s => match s with | [] => false | d :: s' => c == d && globMatch p s'
-termination_by p s => p.length + s.length
+  | [] => fun s => s.isEmpty
+  | c :: p => if c = '*' then someSuffix (globMatch p) else headMatch c (globMatch p)
 
 /-- the gateway action an IAM action pattern stands for (`s3:Get*` ↦ Read, …; `s3:*` ↦ everything) -/
 def iamAction : Str → Option Str
